@@ -118,6 +118,12 @@ static void run(const Script& s) {
                 if (!l) { printf("N\n"); continue; }
                 *pkt /= *l;
                 printf("P %s\n", vacc::describe(*pkt).c_str());
+            } else if (op == "cut" && pkt) {
+                // drop everything below layer <idx> (inner_pdu(0)): the object is then given other inner layers
+                PDU* l = layer_at(pkt.get(), (int)num(t[1]));
+                if (!l) { printf("N\n"); continue; }
+                l->inner_pdu(0);
+                printf("P %s\n", vacc::describe(*pkt).c_str());
             } else if (op == "raw" && pkt) {
                 bytes b = unhex(t[1]);
                 *pkt /= RawPDU(b.begin(), b.end());
@@ -137,6 +143,23 @@ static void run(const Script& s) {
                 if (r < 0) { printf("N\n"); continue; }
                 if (op == "sopt") printf("O %d %s\n", r, found.c_str());
                 else printf("P %d %s\n", r, vacc::describe(*pkt).c_str());
+            } else if (op == "tnames") {
+                printf("T %s\n", vacc::type_names().c_str());
+            } else if (op == "rows" && pkt) {
+                // what layer <idx> answers to (matches_flag for every class flag) and what it is (dynamic_cast to every class)
+                PDU* l = layer_at(pkt.get(), (int)num(t[1]));
+                if (!l) { printf("N\n"); continue; }
+                printf("R %s\n", vacc::type_rows(*l).c_str());
+            } else if (op == "newcc") {
+                // a PDUCacher<T> around a T that carries inner layers of its own
+                PDU* p = 0;
+                if (t[1] == "IP") p = new PDUCacher<IP>(IP("10.0.0.2", "10.0.0.1") / TCP(80, 1234) / RawPDU("abc"));
+                else if (t[1] == "EthernetII") p = new PDUCacher<EthernetII>(EthernetII() / IP("10.0.0.2", "10.0.0.1") / UDP(53, 1234) / RawPDU("abc"));
+                else if (t[1] == "UDP") p = new PDUCacher<UDP>(UDP(53, 1234) / DNS());
+                else if (t[1] == "IPv6") p = new PDUCacher<IPv6>(IPv6() / ICMPv6());
+                if (!p) { printf("N\n"); continue; }
+                pkt.reset(p);
+                printf("P cacher\n");
             } else if (op == "ptype" && pkt) {
                 // what the object claims to be (pdu_type()) next to what it is (the class the generated dynamic_cast chain finds)
                 std::ostringstream one; vacc::describe_layer(*pkt, one);
